@@ -13,6 +13,7 @@ func init() {
 	vpRegister("c11_skip", vpH_c11_skip)
 	vpRegister("c11_frame", vpH_c11_frame)
 	vpRegister("c11_parsed", vpH_c11_parsed)
+	vpRegister("c11_empty", vpH_c11_empty)
 }
 
 // vpTuple is a dimension->value tuple kept as parallel lists (the oracle never
@@ -62,6 +63,16 @@ func vpC11DimName() string {
 	return vpStr(1, "a-d")
 }
 
+// vpC11Val: a value of a permutation or adjustment tuple - one byte, or
+// (configurations with empty=1) also the empty string, which is a value like
+// any other.
+func vpC11Val() string {
+	if vpParam("empty") != 0 {
+		return vpStrUpTo(1, "x")
+	}
+	return vpStr(1, "x-z")
+}
+
 func vpMkTuple(around int) vpTuple {
 	lo := around - 1
 	if lo < 0 {
@@ -74,7 +85,7 @@ func vpMkTuple(around int) vpTuple {
 		_, dup := t.get(name)
 		vpAssume(!dup)
 		t.names = append(t.names, name)
-		t.vals = append(t.vals, vpStr(1, "x-z"))
+		t.vals = append(t.vals, vpC11Val())
 	}
 	return t
 }
@@ -414,4 +425,35 @@ func vpH_c11_parsed() {
 	if spelling == 1 && nv == 0 && verr == nil && len(p.names) == 1 {
 		vpCover("setup: [] with an accepted adjustment tuple")
 	}
+}
+
+// The empty string is a value like any other - in a permutation, in an
+// adjustment, in a setup list - and never stands for "no value" or "no such
+// dimension": two fixed dimensions, one adjustment, a permutation of one to
+// three entries whose names may be unknown and whose values may be empty.
+func vpH_c11_empty() {
+	val := func() string { return vpStrUpTo(1, "x-y") }
+	mm := vpMatrixModel{dims: []string{"a", "b"}, vals: [][]string{{"x"}, {"y", val()}}}
+	m := &Matrix{Setup: MatrixSetup{"a": mm.vals[0], "b": mm.vals[1]}}
+	if vpBool() {
+		w := vpTuple{names: []string{"a", "b"}, vals: []string{val(), val()}}
+		sk := 0
+		adj := &MatrixAdjustment{With: MatrixAdjustmentWith(w.asMap())}
+		if vpBool() {
+			sk, adj.Skip = 2, true
+		}
+		m.Adjustments = MatrixAdjustments{adj}
+		mm.adjs = []vpAdjSpec{{with: w, skip: sk}}
+	}
+	var p vpTuple
+	n := vpInt(1, 3)
+	for i := 0; i < n; i++ {
+		name := vpStr(1, "a-c")
+		_, dup := p.get(name)
+		vpAssume(!dup)
+		p.names = append(p.names, name)
+		p.vals = append(p.vals, val())
+	}
+	err := m.validatePermutation(MatrixPermutation(p.asMap()))
+	vpAssert((err == nil) == vpMatrixSpec(mm, p), "with empty strings among the values, a permutation is accepted exactly when the specification accepts it")
 }
